@@ -58,6 +58,8 @@ class Ctx:
         self.pc = []            # z3 constraints added by forks in this run
         self.pc_desc = []
         self._cache = {}
+        self._unknown_keys = set()
+        self.uncertain = False     # this run took a fork whose feasibility the solver could not confirm
         self._z3cache = {}
         self.model = None
         self.stats = dict(z3_checks=0, z3_time=0.0, decided=0, forks=0, unknown=0,
@@ -101,6 +103,7 @@ class Ctx:
         self.path = []
         self.pc = []
         self.pc_desc = []
+        self.uncertain = False
         self.kernels = []
         self.pc_id = 0
         self.model = None
@@ -152,16 +155,22 @@ class Ctx:
         if val is True:
             r = self._sat(z3.Not(z))
             st = "T" if r == z3.unsat else "U"
+            if r == z3.unknown:
+                self._unknown_keys.add(ck)
         elif val is False:
             r = self._sat(z)
             st = "F" if r == z3.unsat else "U"
+            if r == z3.unknown:
+                self._unknown_keys.add(ck)
         else:
             r1 = self._sat(z)
             if r1 == z3.unsat:
                 st = "F"
             else:
                 r2 = self._sat(z3.Not(z))
-                st = "T" if (r2 == z3.unsat and r1 == z3.sat) else "U"
+                st = "T" if r2 == z3.unsat else "U"
+                if st == "U" and (r1 == z3.unknown or r2 == z3.unknown):
+                    self._unknown_keys.add(ck)
         self._cache[ck] = st
         return st
 
@@ -196,6 +205,9 @@ class Ctx:
             val = True
             self.prefix.append(True)
         self.stats["forks"] += 1
+        if (self.pc_id, sb.key()) in self._unknown_keys:
+            self.uncertain = True
+            self.stats["forks_on_unknown"] = self.stats.get("forks_on_unknown", 0) + 1
         self.path.append(val)
         c = z if val else z3.Not(z)
         self.solver.add(c)
@@ -554,8 +566,20 @@ class Sym:
                 ctx.stats["assumed_nonzero"] += 1
                 return
         sb = SymBool(ctx, e, "eq")
-        st = ctx.status(sb.z3(), sb.key())
-        if st == "F":
+        ck = (ctx.pc_id, ("nz", e))
+        r = ctx._cache.get(ck)
+        if r is None:
+            old = ctx.timeout_ms
+            ctx.solver.set("timeout", min(old, 3000))
+            r = ctx._sat(sb.z3())
+            ctx.solver.set("timeout", old)
+            ctx._cache[ck] = r
+        if r == z3.unsat:
+            return
+        if r == z3.unknown:
+            # the solver cannot decide whether the divisor can vanish: the zero branch is NOT explored and the guard is
+            # recorded as undecided (never reported as a violation; listed in the evidence)
+            ctx.stats["division_guard_undecided"] = ctx.stats.get("division_guard_undecided", 0) + 1
             return
         if ctx.decide(sb):
             raise ZeroDivisionError("division by a symbolic value that is zero on this path")
